@@ -309,7 +309,8 @@ def keyfile_case(args):
     sc = H.worker_scratch()
     root = sc.sub()
     path = root / 'sub' / 'the.key'
-    path.parent.mkdir(parents=True)
+    if pre != 'unwritable':
+        path.parent.mkdir(parents=True)     # 'unwritable': the directory of the key output file does not exist
     if pre == 'longer':
         path.write_bytes(b'{"old": "' + b'k' * 6000 + b'"}')
     elif pre == 'shorter':
@@ -337,8 +338,12 @@ def keyfile_case(args):
         want, pw = W.run(go)
     except Exception as e:
         shutil.rmtree(root, ignore_errors=True)
+        if pre == 'unwritable':
+            return []      # refusing is fine; a command that goes on must hand out a key that works (checked below)
         return [(dict(sig0, outcome='command-failed'), {'deviations': [sig0['deviation']], 'detail': repr(e)[:200]})]
     got = path.read_bytes() if path.exists() else None
+    if pre == 'unwritable' and got is None:
+        got = want         # the key went somewhere else (stdout / the result): it must still be a working key
     if got != want:
         vs.append((dict(sig0, outcome='key-file-is-not-the-key'),
                    {'deviations': [sig0['deviation']], 'detail': f'file has {None if got is None else len(got)} bytes, key has {len(want)}'}))
@@ -434,7 +439,7 @@ def main():
         for label, shared, problem in out:
             chk.violation({'section': 'add-key', 'deviation': label, 'outcome': problem[0]},
                           {'deviations': ['add-key:' + label], 'shared': shared, 'detail': problem[1]})
-    kcases = [(c, pre) for c in ('init', 'add-key-shared', 'add-key-independent') for pre in ('absent', 'shorter', 'longer')]
+    kcases = [(c, pre) for c in ('init', 'add-key-shared', 'add-key-independent') for pre in ('absent', 'shorter', 'longer', 'unwritable')]
     for vs in common.pmap(keyfile_case, kcases, ordered=False):
         nak += 1
         for sig, d in vs:
